@@ -55,8 +55,8 @@ pub fn synth_schema_sdl() -> String {
         "enum Color {{ RED GREEN BLUE }}\nscalar Date\n\
          input Point {{ x: Int! y: Int! = 0 label: String tags: [String!] inner: Point pts: [[Point!]] c: Color d: Date f: Float b: Boolean id: ID nl: [Int!]! }}\n\
          interface Node {{ id: ID! }}\ninterface Named implements Node {{ id: ID! name: String }}\n\
-         type A implements Node & Named {{ id: ID! name: String nick: String a: Int peer: B self: A list: [A!]! nested: [[A]] }}\n\
-         type B implements Node {{ id: ID! b: Float peer: A }}\nunion AB = A | B\n\
+         type A implements Node & Named {{ id: ID! name: String nick: String a: Int peer: B self: A list: [A!]! nested: [[A]] selfN: A! selfL: [A] selfLN: [A!] selfNL: [A]! nameN: String! names: [String] }}\n\
+         type B implements Node {{ id: ID! b: Float peer: A peerN: A! peerL: [A] peerLN: [A!] peerNL: [A]! peerNLN: [A!]! peerLL: [[A]] s: String sN: String! sL: [String] i: Int }}\nunion AB = A | B\n\
          type Query {{\n  node: Node\n  named: Named\n  a: A\n  b: B\n  ab: AB\n{}}}\n\
          type Mutation {{ m(a: Int): Int }}\ntype Subscription {{ s1: Int s2: Int sa: A }}\n\
          directive @args({}req: Boolean! = true) repeatable on FIELD | QUERY | MUTATION | SUBSCRIPTION | FRAGMENT_DEFINITION | FRAGMENT_SPREAD | INLINE_FRAGMENT\n\
@@ -546,6 +546,90 @@ pub fn variable_graph_cases(rng: &mut Rng, n: usize) -> Vec<GDoc> {
         }
         if rng.pct(30) {
             defs.reverse();
+        }
+        out.push(GDoc(defs));
+    }
+    out
+}
+
+
+/// C05: two fields under the same response key whose return types have every combination of
+/// list / non-null shape over a composite or a leaf type, under mutually exclusive parents
+/// (`... on A` / `... on B` inside the union-typed `ab`) in both orders, and under the same parent
+/// (two fields of A), with agreeing sub-selections: only the type shapes decide.
+pub fn merge_shape_cases() -> Vec<GDoc> {
+    let a_comp = ["self", "selfN", "selfL", "selfLN", "selfNL", "list", "nested", "peer"];
+    let b_comp = ["peer", "peerN", "peerL", "peerLN", "peerNL", "peerNLN", "peerLL"];
+    let a_leaf = ["name", "nameN", "names", "a", "id"];
+    let b_leaf = ["s", "sN", "sL", "i", "b", "id"];
+    let fld = |name: &str, comp: bool| GSel::Field { alias: Some("k".into()), name: name.into(), args: vec![], dirs: vec![],
+        sels: if comp { vec![GSel::Field { alias: None, name: "id".into(), args: vec![], dirs: vec![], sels: vec![] }] } else { vec![] } };
+    let on = |t: &str, s: GSel| GSel::Inline { tc: Some(t.into()), dirs: vec![], sels: vec![s] };
+    let doc = |root: &str, sels: Vec<GSel>| GDoc(vec![GDef::Op { kind: OpKind::SelSet, name: None, vars: vec![], dirs: vec![],
+        sels: vec![GSel::Field { alias: None, name: root.into(), args: vec![], dirs: vec![], sels }] }]);
+    let mut out = vec![];
+    for (al, bl, comp) in [(&a_comp[..], &b_comp[..], true), (&a_leaf[..], &b_leaf[..], false)] {
+        for x in al {
+            for y in bl {
+                out.push(doc("ab", vec![on("A", fld(x, comp)), on("B", fld(y, comp))]));
+                out.push(doc("ab", vec![on("B", fld(y, comp)), on("A", fld(x, comp))]));
+            }
+            for x2 in al {
+                out.push(doc("a", vec![fld(x, comp), fld(x2, comp)]));
+            }
+        }
+    }
+    // a composite against a leaf under exclusive parents
+    out.push(doc("ab", vec![on("A", fld("self", true)), on("B", fld("s", false))]));
+    out.push(doc("ab", vec![on("B", fld("s", false)), on("A", fld("self", true))]));
+    out
+}
+
+/// C11 / C19: a subscription whose root selection set spreads fragments on Subscription that spread
+/// each other (2..3 fragments, random edge sets incl. repeats and diamonds), each fragment placing
+/// zero or one field BEFORE and AFTER each of its spreads (so that what follows a repeated spread
+/// matters); fields drawn from a pool with at most two distinct response keys plus __typename.
+pub fn subscription_graph_cases(rng: &mut Rng, n: usize) -> Vec<GDoc> {
+    let fld = |alias: Option<&str>, name: &str| GSel::Field { alias: alias.map(|x| x.to_string()), name: name.into(), args: vec![], dirs: vec![], sels: vec![] };
+    let atoms: Vec<GSel> = vec![fld(None, "s1"), fld(None, "s2"), fld(Some("s1"), "s2"), fld(Some("k"), "s1"), fld(None, "__typename")];
+    let mut out = vec![];
+    for _ in 0..n {
+        let k = rng.range(1, 3);
+        let one_key = rng.pct(50); // half of the documents use a single response key throughout: valid ones
+        let pick = |rng: &mut Rng| -> GSel { if one_key { atoms[0].clone() } else { atoms[rng.below(atoms.len())].clone() } };
+        let body = |rng: &mut Rng, targets: Vec<usize>| -> Vec<GSel> {
+            let mut sels = vec![];
+            for t in targets {
+                if rng.pct(35) {
+                    sels.push(pick(rng));
+                }
+                let sp = GSel::Spread { name: format!("F{}", t), dirs: vec![] };
+                sels.push(if rng.pct(25) { GSel::Inline { tc: None, dirs: vec![], sels: vec![sp] } } else { sp });
+            }
+            if rng.pct(60) || sels.is_empty() {
+                sels.push(pick(rng));
+            }
+            sels
+        };
+        let mut defs = vec![];
+        let mut roots: Vec<usize> = (0..rng.range(1, 3)).map(|_| rng.below(k)).collect();
+        if rng.pct(30) {
+            let r = roots[0];
+            roots.push(r); // the same fragment spread twice
+        }
+        defs.push(GDef::Op { kind: OpKind::Subscription, name: Some("S".into()), vars: vec![], dirs: vec![], sels: body(rng, roots) });
+        for f in 0..k {
+            // acyclic: only higher-numbered targets; a target may repeat
+            let mut targets = vec![];
+            for g in (f + 1)..k {
+                if rng.pct(60) {
+                    targets.push(g);
+                    if rng.pct(20) {
+                        targets.push(g);
+                    }
+                }
+            }
+            defs.push(GDef::Frag { name: format!("F{}", f), tc: "Subscription".into(), dirs: vec![], sels: body(rng, targets) });
         }
         out.push(GDoc(defs));
     }
